@@ -216,8 +216,6 @@ pub fn failure_sig(part: &str, input: &str, f: &ShapeFailure) -> Option<String> 
         Some("post-init-body".to_string())
     } else if generics_in_decl_form(&f.item) {
         Some("generics-decl-form-in-type-position".to_string())
-    } else if base.starts_with("From") && !is_enum && is_tuple_struct(input) && input.contains("[parent(") {
-        Some("nested-parent-in-tuple-struct".to_string())
     } else {
         None
     };
@@ -226,17 +224,6 @@ pub fn failure_sig(part: &str, input: &str, f: &ShapeFailure) -> Option<String> 
         return Some(narrow.unwrap_or(format!("rc:{}:{}:{}", if is_enum { "enum" } else { "struct" }, base.trim_end_matches("+post-init"), err)));
     }
     narrow
-}
-
-fn is_tuple_struct(input: &str) -> bool {
-    match input.find("struct S") {
-        Some(p) => {
-            let rest = &input[p + "struct S".len()..];
-            let rest = if rest.starts_with('<') { rest.find('>').map(|e| &rest[e + 1..]).unwrap_or(rest) } else { rest };
-            rest.trim_start().starts_with('(')
-        }
-        None => false,
-    }
 }
 
 /// `impl<T: Copy, const N: usize> .. for S<T: Copy, const N: usize>`: the deriving type's parameters re-emitted in
